@@ -322,6 +322,73 @@ Proof.
   - intros [H| ->]; [apply MAltL; exact H|apply MAltR; constructor].
 Qed.
 
+(* ---------- counted repetition: k rounds of a *)
+Inductive Mpow (s : str) (a : re) : nat -> nat -> nat -> Prop :=
+| Mpow0 i : Mpow s a 0 i i
+| MpowS k i j l : M s a i j -> Mpow s a k j l -> Mpow s a (S k) i l.
+
+Lemma re_pow_spec : forall s a k i j, M s (re_pow a k) i j <-> Mpow s a k i j.
+Proof.
+  intros s a k. induction k as [|k IH]; intros i j; cbn [re_pow].
+  - split; intros H; inversion H; subst; constructor.
+  - split.
+    + intros H. inversion H; subst. econstructor; [eassumption|]. apply IH. assumption.
+    + intros H. inversion H; subst. econstructor; [eassumption|]. apply IH. assumption.
+Qed.
+
+Lemma Mpow_app : forall s a k1 k2 i x j, Mpow s a k1 i x -> Mpow s a k2 x j -> Mpow s a (k1 + k2) i j.
+Proof.
+  intros s a k1 k2 i x j H1. revert k2 j. induction H1 as [i|k i y x Hm Hp IH]; intros k2 j H2; cbn [Nat.add].
+  - exact H2.
+  - econstructor; [exact Hm|]. apply IH. exact H2.
+Qed.
+
+Lemma Mpow_split : forall s a k1 k2 i j, Mpow s a (k1 + k2) i j -> exists x, Mpow s a k1 i x /\ Mpow s a k2 x j.
+Proof.
+  intros s a k1. induction k1 as [|k1 IH]; intros k2 i j H; cbn [Nat.add] in H.
+  - exists i. split; [constructor|exact H].
+  - inversion H; subst. match goal with Hp : Mpow s a (k1 + k2) _ j |- _ => apply IH in Hp; destruct Hp as [x [Hx1 Hx2]] end.
+    exists x. split; [econstructor; eassumption|exact Hx2].
+Qed.
+
+Lemma re_upto_spec : forall s a d i j, M s (re_upto a d) i j <-> exists k, k <= d /\ Mpow s a k i j.
+Proof.
+  intros s a d. induction d as [|d IH]; intros i j; cbn [re_upto].
+  - split.
+    + intros H. inversion H; subst. exists 0. split; [lia|constructor].
+    + intros [k [Hk H]]. assert (k = 0) by lia. subst k. inversion H; subst. constructor.
+  - rewrite re_opt_spec. split.
+    + intros [H| ->].
+      * inversion H; subst. match goal with Hu : M s (re_upto a d) _ j |- _ => apply IH in Hu; destruct Hu as [k [Hk Hp]] end.
+        exists (S k). split; [lia|]. econstructor; eassumption.
+      * exists 0. split; [lia|constructor].
+    + intros [k [Hk H]]. destruct k as [|k].
+      * inversion H; subst. right. reflexivity.
+      * inversion H; subst. left. econstructor; [eassumption|]. apply IH. exists k. split; [lia|assumption].
+Qed.
+
+(* a{m,m+d}: between m and m+d rounds *)
+Theorem re_rep_spec : forall s a m d i j, M s (re_rep a m d) i j <-> exists k, m <= k <= m + d /\ Mpow s a k i j.
+Proof.
+  intros s a m d i j. unfold re_rep. split.
+  - intros H. inversion H; subst.
+    match goal with H1 : M s (re_pow a m) i ?x, H2 : M s (re_upto a d) ?x j |- _ =>
+      apply re_pow_spec in H1; apply re_upto_spec in H2; destruct H2 as [k [Hk Hp]] end.
+    exists (m + k). split; [lia|]. eapply Mpow_app; eassumption.
+  - intros [k [Hk H]]. replace k with (m + (k - m)) in H by lia. apply Mpow_split in H. destruct H as [x [H1 H2]].
+    econstructor; [apply re_pow_spec; exact H1|]. apply re_upto_spec. exists (k - m). split; [lia|exact H2].
+Qed.
+
+(* a*: any number of rounds *)
+Theorem re_star_spec : forall s a i j, M s (RStar a) i j <-> exists k, Mpow s a k i j.
+Proof.
+  intros s a i j. split.
+  - intros H. remember (RStar a) as r eqn:Er. revert a Er. induction H; intros a' Er; inversion Er; subst.
+    + exists 0. constructor.
+    + destruct (IHM2 a' eq_refl) as [n0 Hn0]. exists (S n0). econstructor; eassumption.
+  - intros [k H]. induction H; [constructor|econstructor; eassumption].
+Qed.
+
 From Coq Require Import String.
 Example re_example :
   let r := RSeq RBol (RSeq (RStar (RChr (CSpace false false))) (RSeq (re_lit (s2l "DADOS"%string)) (re_plus (RChr (CDigit false false))))) in
